@@ -81,6 +81,14 @@ def gen_input(rng, kind):
         "email": lambda: GM.email_doc(rng),
     }
     if kind == "raw":
+        if rng.random() < 0.5:
+            try:
+                from gen import metadata as GMD
+                data = GMD.raw_dict(rng)
+                data = data[0] if isinstance(data, tuple) else data
+                return {k: v for k, v in dict(data).items()}
+            except Exception:  # noqa: BLE001
+                pass
         return GM.raw_metadata(rng)
     if kind == "elf":
         if rng.random() < 0.5:
@@ -125,6 +133,16 @@ def _area_input(rng, kind):
     if kind == "clauses":
         cl = [GS.clause(rng) if rng.random() < 0.8 else GS.malformed_clause(rng) for _ in range(rng.randrange(0, 5))]
         return rng.choice([",", " , ", ",,", ", "]).join(cl)
+    if kind in ("wheel", "sdist"):
+        import props.C14 as P14
+        if kind == "wheel":
+            w = P14.wheel_struct(rng)
+            if rng.random() < 0.6:
+                return P14.damage_wheel(rng, w, rng.choice(["extension", "parts", "name", "version", "build"]))[0]
+            return P14.spelled_wheel(rng, w) if rng.random() < 0.5 else P14.assemble_wheel(w)
+        sd = P14.sdist_struct(rng)
+        name = P14.assemble_sdist(sd)
+        return GV.malformed(rng, name) if rng.random() < 0.5 else name
     if kind == "email":
         from gen import metadata as GMD
         doc = GMD.build_doc(GMD.document(rng))
